@@ -135,7 +135,7 @@ def run(ctx: Ctx):
         bad = []
         for n in walk_no_nested(f.node):
             if isinstance(n, ast.Name) and n.id == "annotator" and isinstance(n.ctx, ast.Load):
-                par = [c for c in ast.walk(f.node) if isinstance(c, ast.Call) and any(n is x for x in c.args)]
+                par = [c for c in ast.walk(f.node) if isinstance(c, ast.Call) and any(n is x for x in list(c.args) + [k.value for k in c.keywords])]
                 if not (par and all(isinstance(c.func, ast.Attribute) and c.func.attr == "index" for c in par)):
                     bad.append(n)
         ctx.check(not bad, "R-C09-4", f, bad[0] if bad else None, "the annotator's name is used at most to look up its slot (index in the sorted annotator set)",
@@ -143,7 +143,7 @@ def run(ctx: Ctx):
         labs = [n for n in walk_no_nested(f.node) if isinstance(n, ast.Attribute) and n.attr == "annotation" and isinstance(n.ctx, ast.Load)]
         okl = bool(labs)
         for n in labs:
-            par = [c for c in ast.walk(f.node) if isinstance(c, ast.Call) and any(n is x for x in c.args)]
+            par = [c for c in ast.walk(f.node) if isinstance(c, ast.Call) and any(n is x for x in list(c.args) + [k.value for k in c.keywords])]
             if not (par and all(norm(c.func).split(".")[-1] in ("index", "_category_index") for c in par)):
                 okl = False
         ctx.check(okl, "R-C09-4", f, labs[0] if labs else None, "a label enters the arrays only as its index in the sorted category set: order-preserving renamings change nothing",
